@@ -76,11 +76,16 @@ func runMalformed(cs string) string {
 	if validProbe(kind) {
 		next = "ok"
 	}
+	if m["via"] == "raw" && len(b) >= 2 && len(b) > 2+int(binary.BigEndian.Uint16(b)) {
+		// octets follow the first frame: whether its response is written before the rest of the stream gets the
+		// connection closed is a race, so the reaction is reported but not compared
+		return fmt.Sprintf("first=any next=%s ## first=%s", next, first)
+	}
 	return fmt.Sprintf("first=%s next=%s", first, next)
 }
 
 func genMalformed(r *rand.Rand, thorough bool, emit func(c, cat string)) {
-	per := 6
+	per := 10
 	if thorough {
 		per = 60
 	}
@@ -136,6 +141,30 @@ func genMalformed(r *rand.Rand, thorough bool, emit func(c, cat string)) {
 			}
 			if kind == "tcp" || kind == "gnet" || kind == "tls" {
 				via = []string{"-", "split1", "split2", "split3"}[r.Intn(4)]
+			}
+			if (kind == "tcp" || kind == "gnet" || kind == "tls" || kind == "quic") && r.Intn(3) == 0 {
+				// the stream as the client writes it: a length prefix that lies about what follows
+				via = "raw"
+				var l int
+				switch r.Intn(6) {
+				case 0:
+					l = 0
+				case 1:
+					l = len(b) + 1 + r.Intn(40) // more than what follows
+				case 2:
+					l = 65535
+				case 3:
+					l = r.Intn(len(b) + 1) // less: the rest looks like the next frame
+				default:
+					l = len(b)
+				}
+				fr := frame(b)
+				binary.BigEndian.PutUint16(fr, uint16(l))
+				if r.Intn(8) == 0 {
+					fr = fr[:r.Intn(3)] // not even a whole prefix
+				}
+				b = fr
+				cat = "rawstream"
 			}
 			emit(fmt.Sprintf("kind=%s via=%s bytes=%s", kind, via, hexs(b)), kind+"-"+cat)
 		}
